@@ -3,8 +3,10 @@ package rules
 import (
 	"fmt"
 	"go/types"
+	"runtime"
 	"sort"
 	"strings"
+	"sync"
 
 	"golang.org/x/tools/go/ssa"
 
@@ -125,246 +127,269 @@ func narrowTable(c *core.Ctx, fn *ssa.Function, maxLen int) (rs rows, runs int, 
 		withQ    bool
 	}
 	winners := map[outcomeKey]map[string]bool{}
+	// every (field kind, qualifier argument, candidate list) is an independent interpretation: run them on all cores,
+	// serialising only the bookkeeping
+	var mu sync.Mutex
+	var wg sync.WaitGroup
+	sem := make(chan struct{}, runtime.NumCPU())
+	firstUndecided := ""
 	for _, fieldKind := range []int64{23, 22} { // slice, pointer
 		for _, withQ := range []bool{true, false} {
 			for _, lst := range lists {
-				var H *absint.Tok
-				var cands []*absint.Tok
-				var in *absint.List
-				build := func() (absint.Oracle, []absint.Value, []absint.Value) {
-					t := newTbl(c)
-					n := absint.NewTok("prop", "property")
-					H = absint.NewTok("H", "holdermeta")
-					fld := absint.NewTok("prop.Field", "field")
-					base := absint.NewTok("prop.Field.Base", "base")
-					hold := absint.NewTok("holder", "holder")
-					typ := absint.NewTok("fieldType", "type")
-					args := absint.NewTok("args", "tagargs")
-					n.Fields["Field"], fld.Fields["Base"], fld.Fields["Holder"] = fld, base, hold
-					base.Fields["Type"], hold.Fields["Meta"] = typ, H
-					n.Fields["args"] = args
-					in = &absint.List{IsNil: len(lst) == 0}
-					cands = nil
-					for i, ki := range lst {
-						k := kinds[ki]
-						if k.isNil {
-							in.Elems = append(in.Elems, absint.Nil{})
-							cands = append(cands, nil)
-							continue
+				wg.Add(1)
+				sem <- struct{}{}
+				go func() {
+					defer wg.Done()
+					defer func() { <-sem }()
+					var H *absint.Tok
+					var cands []*absint.Tok
+					var in *absint.List
+					build := func() (absint.Oracle, []absint.Value, []absint.Value) {
+						t := newTbl(c)
+						n := absint.NewTok("prop", "property")
+						H = absint.NewTok("H", "holdermeta")
+						fld := absint.NewTok("prop.Field", "field")
+						base := absint.NewTok("prop.Field.Base", "base")
+						hold := absint.NewTok("holder", "holder")
+						typ := absint.NewTok("fieldType", "type")
+						args := absint.NewTok("args", "tagargs")
+						n.Fields["Field"], fld.Fields["Base"], fld.Fields["Holder"] = fld, base, hold
+						base.Fields["Type"], hold.Fields["Meta"] = typ, H
+						n.Fields["args"] = args
+						in = &absint.List{IsNil: len(lst) == 0}
+						cands = nil
+						for i, ki := range lst {
+							k := kinds[ki]
+							if k.isNil {
+								in.Elems = append(in.Elems, absint.Nil{})
+								cands = append(cands, nil)
+								continue
+							}
+							m := absint.NewTok(fmt.Sprintf("M%d:%s", i, k), "cand")
+							m.Attr["kind"] = absint.Int(ki)
+							raw := absint.NewTok(fmt.Sprintf("M%d.Raw", i), "raw")
+							raw.Attr["qual"] = absint.Str(k.qual)
+							mb := absint.NewTok(fmt.Sprintf("M%d.Base", i), "base")
+							mt := absint.NewTok(fmt.Sprintf("M%d.Type", i), "type")
+							mt.Attr["primary"] = absint.Bool(k.primary)
+							mb.Fields["Type"] = mt
+							m.Fields["Raw"], m.Fields["Base"] = raw, mb
+							if k.named {
+								m.Fields["alias"] = absint.Str("custom")
+							} else {
+								m.Fields["alias"] = absint.Str("")
+							}
+							in.Elems = append(in.Elems, m)
+							cands = append(cands, m)
 						}
-						m := absint.NewTok(fmt.Sprintf("M%d:%s", i, k), "cand")
-						m.Attr["kind"] = absint.Int(ki)
-						raw := absint.NewTok(fmt.Sprintf("M%d.Raw", i), "raw")
-						raw.Attr["qual"] = absint.Str(k.qual)
-						mb := absint.NewTok(fmt.Sprintf("M%d.Base", i), "base")
-						mt := absint.NewTok(fmt.Sprintf("M%d.Type", i), "type")
-						mt.Attr["primary"] = absint.Bool(k.primary)
-						mb.Fields["Type"] = mt
-						m.Fields["Raw"], m.Fields["Base"] = raw, mb
-						if k.named {
-							m.Fields["alias"] = absint.Str("custom")
-						} else {
-							m.Fields["alias"] = absint.Str("")
+						t.callee[argsM] = func(ip *absint.Interp, a []absint.Value) absint.Value { return args }
+						t.callee[find] = func(ip *absint.Interp, a []absint.Value) absint.Value {
+							if k, ok := a[1].(absint.Str); !ok || !strings.EqualFold(string(k), "qualifier") {
+								panic(&absint.Undecided{Msg: "TagArg.Find with a key other than the qualifier argument: " + absint.Show(a[1])})
+							}
+							if withQ {
+								return absint.Tuple{&absint.List{Elems: []absint.Value{absint.Str("q")}}, absint.Bool(true)}
+							}
+							return absint.Tuple{&absint.List{IsNil: true}, absint.Bool(false)}
 						}
-						in.Elems = append(in.Elems, m)
-						cands = append(cands, m)
-					}
-					t.callee[argsM] = func(ip *absint.Interp, a []absint.Value) absint.Value { return args }
-					t.callee[find] = func(ip *absint.Interp, a []absint.Value) absint.Value {
-						if k, ok := a[1].(absint.Str); !ok || !strings.EqualFold(string(k), "qualifier") {
-							panic(&absint.Undecided{Msg: "TagArg.Find with a key other than the qualifier argument: " + absint.Show(a[1])})
-						}
-						if withQ {
-							return absint.Tuple{&absint.List{Elems: []absint.Value{absint.Str("q")}}, absint.Bool(true)}
-						}
-						return absint.Tuple{&absint.List{IsNil: true}, absint.Bool(false)}
-					}
-					t.callee[has] = func(ip *absint.Interp, a []absint.Value) absint.Value {
-						if k, ok := a[1].(absint.Str); !ok || !strings.EqualFold(string(k), "qualifier") {
-							panic(&absint.Undecided{Msg: "TagArg.Has with a key other than the qualifier argument"})
-						}
-						wants, _ := a[2].(*absint.List)
-						if !withQ {
-							return absint.Bool(false)
-						}
-						if wants == nil || len(wants.Elems) == 0 {
-							return absint.Bool(true)
-						}
-						for _, w := range wants.Elems {
-							if w == absint.Value(absint.Str("q")) {
+						t.callee[has] = func(ip *absint.Interp, a []absint.Value) absint.Value {
+							if k, ok := a[1].(absint.Str); !ok || !strings.EqualFold(string(k), "qualifier") {
+								panic(&absint.Undecided{Msg: "TagArg.Has with a key other than the qualifier argument"})
+							}
+							wants, _ := a[2].(*absint.List)
+							if !withQ {
+								return absint.Bool(false)
+							}
+							if wants == nil || len(wants.Elems) == 0 {
 								return absint.Bool(true)
 							}
-						}
-						return absint.Bool(false)
-					}
-					if isSelf != nil {
-						t.callee[isSelf] = func(ip *absint.Interp, a []absint.Value) absint.Value {
-							m, ok := a[1].(*absint.Tok)
-							if !ok || a[0] != absint.Value(H) {
-								panic(&absint.Undecided{Msg: "IsSelf is not asked of the holder's definition about a candidate"})
+							for _, w := range wants.Elems {
+								if w == absint.Value(absint.Str("q")) {
+									return absint.Bool(true)
+								}
 							}
-							return absint.Bool(kinds[int(m.Attr["kind"].(absint.Int))].self)
+							return absint.Bool(false)
 						}
-					}
-					if isTypeImpl != nil {
-						t.callee[isTypeImpl] = func(ip *absint.Interp, a []absint.Value) absint.Value {
-							mt, ok := a[0].(*absint.Tok)
-							if !ok || mt.Attr["primary"] == nil {
-								panic(&absint.Undecided{Msg: "IsTypeImplement on something that is not a candidate's type"})
+						if isSelf != nil {
+							t.callee[isSelf] = func(ip *absint.Interp, a []absint.Value) absint.Value {
+								m, ok := a[1].(*absint.Tok)
+								if !ok || a[0] != absint.Value(H) {
+									panic(&absint.Undecided{Msg: "IsSelf is not asked of the holder's definition about a candidate"})
+								}
+								return absint.Bool(kinds[int(m.Attr["kind"].(absint.Int))].self)
 							}
-							return mt.Attr["primary"]
 						}
-					}
-					t.typeTest = func(v absint.Value, T types.Type) (bool, bool) {
-						raw, ok := v.(*absint.Tok)
-						if !ok || raw.Attr["qual"] == nil {
+						if isTypeImpl != nil {
+							t.callee[isTypeImpl] = func(ip *absint.Interp, a []absint.Value) absint.Value {
+								mt, ok := a[0].(*absint.Tok)
+								if !ok || mt.Attr["primary"] == nil {
+									panic(&absint.Undecided{Msg: "IsTypeImplement on something that is not a candidate's type"})
+								}
+								return mt.Attr["primary"]
+							}
+						}
+						t.typeTest = func(v absint.Value, T types.Type) (bool, bool) {
+							raw, ok := v.(*absint.Tok)
+							if !ok || raw.Attr["qual"] == nil {
+								return false, false
+							}
+							if types.Identical(T, wq) {
+								return raw.Attr["qual"] != absint.Value(absint.Str("-")), true
+							}
 							return false, false
 						}
-						if types.Identical(T, wq) {
-							return raw.Attr["qual"] != absint.Value(absint.Str("-")), true
+						t.invoke[wqM] = func(ip *absint.Interp, a []absint.Value) absint.Value { return a[0].(*absint.Tok).Attr["qual"] }
+						t.invokeN["Kind"] = func(ip *absint.Interp, a []absint.Value) absint.Value { return absint.Int(fieldKind) }
+						t.global = func(g *ssa.Global) absint.Value { return absint.NewTok("global:"+g.Name(), "global") }
+						return t, []absint.Value{n, in}, nil
+					}
+					check := func(ip *absint.Interp, out absint.Outcome) {
+						var names []string
+						for _, ki := range lst {
+							names = append(names, kinds[ki].String())
 						}
-						return false, false
-					}
-					t.invoke[wqM] = func(ip *absint.Interp, a []absint.Value) absint.Value { return a[0].(*absint.Tok).Attr["qual"] }
-					t.invokeN["Kind"] = func(ip *absint.Interp, a []absint.Value) absint.Value { return absint.Int(fieldKind) }
-					t.global = func(g *ssa.Global) absint.Value { return absint.NewTok("global:"+g.Name(), "global") }
-					return t, []absint.Value{n, in}, nil
-				}
-				check := func(ip *absint.Interp, out absint.Outcome) {
-					var names []string
-					for _, ki := range lst {
-						names = append(names, kinds[ki].String())
-					}
-					w := fmt.Sprintf("field=%s qualifierArg=%v candidates=[%s] => %s", map[int64]string{23: "slice", 22: "single"}[fieldKind], withQ, strings.Join(names, " "), showOutcome(out))
-					rs.hit("no-panic")
-					if out.Panic != nil {
-						rs.fail("no-panic", w)
-						return
-					}
-					isErr := len(out.Ret) == 2 && isErrTok(out.Ret[1])
-					var res []*absint.Tok
-					if l, ok := out.Ret[0].(*absint.List); ok {
-						for _, e := range l.Elems {
-							if t, isT := e.(*absint.Tok); isT {
-								res = append(res, t)
-							} else {
-								rs.fail("no-panic", "nil candidate returned: "+w)
+						w := fmt.Sprintf("field=%s qualifierArg=%v candidates=[%s] => %s", map[int64]string{23: "slice", 22: "single"}[fieldKind], withQ, strings.Join(names, " "), showOutcome(out))
+						rs.hit("no-panic")
+						if out.Panic != nil {
+							rs.fail("no-panic", w)
+							return
+						}
+						isErr := len(out.Ret) == 2 && isErrTok(out.Ret[1])
+						var res []*absint.Tok
+						if l, ok := out.Ret[0].(*absint.List); ok {
+							for _, e := range l.Elems {
+								if t, isT := e.(*absint.Tok); isT {
+									res = append(res, t)
+								} else {
+									rs.fail("no-panic", "nil candidate returned: "+w)
+								}
 							}
 						}
-					}
-					kindOf := func(t *absint.Tok) candKind { return kinds[int(t.Attr["kind"].(absint.Int))] }
-					// qualifying set
-					var Q []*absint.Tok
-					for _, m := range cands {
-						if m == nil {
-							continue
-						}
-						k := kindOf(m)
-						if k.self {
-							continue
-						}
-						if withQ && k.qual != "q" {
-							continue
-						}
-						Q = append(Q, m)
-					}
-					inQ := func(t *absint.Tok) bool {
-						for _, q := range Q {
-							if q == t {
-								return true
+						kindOf := func(t *absint.Tok) candKind { return kinds[int(t.Attr["kind"].(absint.Int))] }
+						// qualifying set
+						var Q []*absint.Tok
+						for _, m := range cands {
+							if m == nil {
+								continue
 							}
-						}
-						return false
-					}
-					for _, t := range res {
-						rs.hit("never-self")
-						if kindOf(t).self {
-							rs.fail("never-self", w)
-						}
-						if withQ {
-							rs.hit("qualifier-sound")
-							if kindOf(t).qual != "q" {
-								rs.fail("qualifier-sound", w)
+							k := kindOf(m)
+							if k.self {
+								continue
 							}
+							if withQ && k.qual != "q" {
+								continue
+							}
+							Q = append(Q, m)
 						}
-					}
-					if len(Q) == 0 {
-						rs.hit("nothing-qualifies")
-						if !isErr || len(res) != 0 {
-							rs.fail("nothing-qualifies", w)
+						inQ := func(t *absint.Tok) bool {
+							for _, q := range Q {
+								if q == t {
+									return true
+								}
+							}
+							return false
 						}
-						return
-					}
-					if isErr {
-						rs.fail("single-member", "error although a candidate qualifies: "+w)
-						return
-					}
-					if fieldKind == 23 {
-						rs.hit("slice-exact")
-						cnt := map[*absint.Tok]int{}
 						for _, t := range res {
-							cnt[t]++
-						}
-						ok := len(res) == len(Q)
-						for _, q := range Q {
-							if cnt[q] != 1 {
-								ok = false
+							rs.hit("never-self")
+							if kindOf(t).self {
+								rs.fail("never-self", w)
+							}
+							if withQ {
+								rs.hit("qualifier-sound")
+								if kindOf(t).qual != "q" {
+									rs.fail("qualifier-sound", w)
+								}
 							}
 						}
-						if !ok {
-							rs.fail("slice-exact", w)
+						if len(Q) == 0 {
+							rs.hit("nothing-qualifies")
+							if !isErr || len(res) != 0 {
+								rs.fail("nothing-qualifies", w)
+							}
+							return
 						}
-						return
+						if isErr {
+							rs.fail("single-member", "error although a candidate qualifies: "+w)
+							return
+						}
+						if fieldKind == 23 {
+							rs.hit("slice-exact")
+							cnt := map[*absint.Tok]int{}
+							for _, t := range res {
+								cnt[t]++
+							}
+							ok := len(res) == len(Q)
+							for _, q := range Q {
+								if cnt[q] != 1 {
+									ok = false
+								}
+							}
+							if !ok {
+								rs.fail("slice-exact", w)
+							}
+							return
+						}
+						// single
+						rs.hit("single-member")
+						if len(res) != 1 || !inQ(res[0]) {
+							rs.fail("single-member", w)
+							return
+						}
+						var prim, unnamed []*absint.Tok
+						for _, q := range Q {
+							if kindOf(q).primary {
+								prim = append(prim, q)
+							}
+							if !kindOf(q).named {
+								unnamed = append(unnamed, q)
+							}
+						}
+						determined := ""
+						switch {
+						case len(Q) == 1:
+							determined = kindOf(Q[0]).String()
+						case len(prim) == 1:
+							rs.hit("single-unique-primary")
+							if res[0] != prim[0] {
+								rs.fail("single-unique-primary", w)
+							}
+							determined = "P"
+						case len(prim) == 0 && len(unnamed) == 1:
+							rs.hit("single-unique-unnamed")
+							if res[0] != unnamed[0] {
+								rs.fail("single-unique-unnamed", w)
+							}
+							determined = "U"
+						}
+						if determined != "" {
+							sorted := append([]string(nil), names...)
+							sort.Strings(sorted)
+							key := outcomeKey{strings.Join(sorted, " "), fieldKind, withQ}
+							if winners[key] == nil {
+								winners[key] = map[string]bool{}
+							}
+							winners[key][kindOf(res[0]).String()] = true
+						}
 					}
-					// single
-					rs.hit("single-member")
-					if len(res) != 1 || !inQ(res[0]) {
-						rs.fail("single-member", w)
-						return
+					locked := func(ip *absint.Interp, out absint.Outcome) {
+						mu.Lock()
+						defer mu.Unlock()
+						check(ip, out)
 					}
-					var prim, unnamed []*absint.Tok
-					for _, q := range Q {
-						if kindOf(q).primary {
-							prim = append(prim, q)
-						}
-						if !kindOf(q).named {
-							unnamed = append(unnamed, q)
-						}
+					n2, u := runTable(c, fn, build, locked)
+					mu.Lock()
+					runs += n2
+					if u != "" && firstUndecided == "" {
+						firstUndecided = u
 					}
-					determined := ""
-					switch {
-					case len(Q) == 1:
-						determined = kindOf(Q[0]).String()
-					case len(prim) == 1:
-						rs.hit("single-unique-primary")
-						if res[0] != prim[0] {
-							rs.fail("single-unique-primary", w)
-						}
-						determined = "P"
-					case len(prim) == 0 && len(unnamed) == 1:
-						rs.hit("single-unique-unnamed")
-						if res[0] != unnamed[0] {
-							rs.fail("single-unique-unnamed", w)
-						}
-						determined = "U"
-					}
-					if determined != "" {
-						sorted := append([]string(nil), names...)
-						sort.Strings(sorted)
-						key := outcomeKey{strings.Join(sorted, " "), fieldKind, withQ}
-						if winners[key] == nil {
-							winners[key] = map[string]bool{}
-						}
-						winners[key][kindOf(res[0]).String()] = true
-					}
-				}
-				n2, u := runTable(c, fn, build, check)
-				runs += n2
-				if u != "" {
-					return rs, runs, u
-				}
+					mu.Unlock()
+				}()
 			}
 		}
+	}
+	wg.Wait()
+	if firstUndecided != "" {
+		return rs, runs, firstUndecided
 	}
 	for key, ws := range winners {
 		rs.hit("permutation-invariant")
@@ -409,7 +434,7 @@ func c08(c *core.Ctx, r *core.Report) {
 	}
 	maxLen := 2
 	if c.Tier == "thorough" {
-		maxLen = 3
+		maxLen = 4
 	}
 	rs, runs, und := narrowTable(c, fn, maxLen)
 	r.Count("narrowing_table_runs", runs)
